@@ -26,7 +26,7 @@ RULE = ("(1) EVERY statistic (14) x EVERY shape with 1-4 axes and lengths 1-4 (3
 ASSUMPTIONS = ["findings are keyed by (subcommand, normalised panic site); dependency sites are stable because Cargo.lock pins them",
                "--threads up to the tool's own limit (1024) is assumed to be spawnable on the machine running the check",
                "population counts between 20 and 25 are not generated: the 3^k-cell spectrum may or may not be allocatable on a given machine"]
-FLOORS = {"quick": {"evaluations": 30000, "distinct_nontrivial": 10000, "counts": {"stat_grid": 11000, "option_bounds": 300, "short_inputs": 300, "absurd_shapes": 150, "sample_lists": 60, "hostile_bytes": 15000}},
+FLOORS = {"quick": {"evaluations": 30000, "distinct_nontrivial": 10000, "counts": {"stat_grid": 11000, "option_bounds": 300, "short_inputs": 300, "absurd_shapes": 150, "sample_lists": 60, "sample_lists_enumerated": 1900, "stdout_gone_runs": 500, "hostile_bytes": 15000}},
           "thorough": {"evaluations": 300000, "distinct_nontrivial": 150000, "counts": {"stat_grid": 11000, "hostile_bytes": 300000}}}
 NSHARD = 32
 KINDS = ["release", "ovf"]
@@ -37,10 +37,12 @@ def plan(tier, seed):
     return [{"name": "s%d" % i, "i": i, "multi": 60 if q else 5000} for i in range(NSHARD)]
 
 
-def classify(S, r, sub, cls, inp, kind, count):
+def classify(S, r, sub, cls, inp, kind, count, extra=None):
     """The C17 verdict for one run."""
     S.count(count)
     wit = {"level": "C", "binary": kind, "argv": r.argv, "input_b64": E.b64(inp[:100000]) if inp is not None else None, "run": r.brief()}
+    if extra:
+        wit.update(extra)
     tag = "%s %s [%s binary]" % (sub, cls, kind)
     if r.timed_out:
         S.inconc("timeout (to be retried alone): %s %r" % (tag, r.argv))
@@ -219,6 +221,31 @@ def part_stderr_full(S, p):
             S.case(key=digest([args, inp.hex()[:200], kind, "stderrfull"]), nontrivial=r.rc != 0)
 
 
+def part_stdout_gone(S, p):
+    """Successful work whose output cannot be delivered: stdout is a pipe whose reader has gone away (EPIPE, `sfs view x | head -c 1`),
+    a full device (ENOSPC) or a descriptor that is not writable (EBADF); outputs from a few bytes to beyond the pipe buffer. The
+    process must end with status 0 or with a non-zero status AND a diagnostic - not silently, not by a panic or a signal."""
+    rng = rng_for(S.seed, "c17", p["name"], "stdoutgone")
+    cs = G.random_callset(rng, nsamples=3, nrecords=6, p_missing=0.1, p_multi=0, extras=False)
+    vcf = cs.to_vcf()
+    n_big = 20000
+    big = ("#SHAPE=<%d>\n%s\n" % (n_big, " ".join(str(k % 97) for k in range(n_big)))).encode()
+    small = b"#SHAPE=<3/3>\n0 1 2 3 4 5 6 7 8\n"
+    cases = [(["create"], vcf), (["create", "-p", "1"], vcf), (["view"], small), (["view", "-O", "npy"], small), (["view", "--precision", "12"], big), (["view", "-O", "npy"], big),
+             (["fold"], small), (["fold", "--precision", "9"], big), (["stat", "-s", "sum"], small), (["stat", "-s", "f2,pi-xy", "-H"], small), (["stat", "-s", "s,theta,pi", "-H"], big)]
+    wheres = ["closed-pipe", "/dev/full", "read-only-fd"]
+    for k, (args, inp) in enumerate(cases):
+        if k % 2 != p["i"] % 2:
+            continue
+        for where in wheres:
+            for kind in KINDS:
+                r = cli.sfs_stdout_to(args, inp, where, kind=kind)
+                S.observe("stdout_gone", "%s/%s" % (args[0], where))
+                S.observe("stdout_gone_outcome", "%s: exit %s%s" % (where, r.rc, " with diagnostic" if r.err.strip() else ""))
+                res = classify(S, r, args[0], "stdout-gone " + where, None, kind, "stdout_gone_runs", extra={"stdout_to": where, "input_b64": E.b64(inp[:100000])})
+                S.case(key=digest([args, where, kind, len(inp)]), nontrivial=res == "error")
+
+
 # ---------------------------------------------------------------- (3) short inputs
 def part_short(S, p):
     rng = rng_for(S.seed, "c17", p["name"], "short")
@@ -294,6 +321,23 @@ def part_samples(S, p):
         run_case(S, ["create", "-s", l, "-p", "1"], vcf, "create", "sample-list", "sample_lists")
         f = E.tmpfile(l.replace(",", "\n").replace("=", "\t").encode() + b"\n", ".samples")
         run_case(S, ["create", "-S", f], vcf, "create", "sample-list", "sample_lists")
+    # EVERY list of 1-4 entries over {two samples} x {label A, label B, no label} (repeats, contradictions, emptied populations in
+    # every order; 1554 lists split over the shards, -s and -S alternating), and seeded longer lists over three samples
+    import itertools
+    entries = [(nm, lab) for nm in s[:2] for lab in ("A", "B", None)]
+    allists = [l_ for n_ in (1, 2, 3, 4) for l_ in itertools.product(entries, repeat=n_)]
+    for k, l_ in enumerate(allists):
+        if k % NSHARD != p["i"]:
+            continue
+        if (k // NSHARD) % 2:
+            run_case(S, ["create", "-s", ",".join(nm if lab is None else "%s=%s" % (nm, lab) for nm, lab in l_)], vcf, "create", "sample-list enumerated", "sample_lists_enumerated")
+        else:
+            f = E.tmpfile("".join((nm if lab is None else "%s\t%s" % (nm, lab)) + "\n" for nm, lab in l_).encode(), ".samples")
+            run_case(S, ["create", "-S", f] + (["-p", "1"] if k % 3 == 0 else []), vcf, "create", "sample-list enumerated", "sample_lists_enumerated")
+    entries3 = [(nm, lab) for nm in s[:3] for lab in ("A", "B", "C", None)]
+    for _ in range(12):
+        l_ = [rng.choice(entries3) for _ in range(rng.randint(5, 9))]
+        run_case(S, ["create", "-s", ",".join(nm if lab is None else "%s=%s" % (nm, lab) for nm, lab in l_)], vcf, "create", "sample-list enumerated", "sample_lists_enumerated")
     # dozens of populations: the spectrum has 3^k cells and cannot be allocated
     big = G.random_callset(rng, nsamples=46, nrecords=2, complete_only=True, extras=False)
     for k in (26, 30, 40, 41, 45):
@@ -397,13 +441,17 @@ def shard(S, p):
         import base64
         inp = base64.b64decode(w["input_b64"]) if w.get("input_b64") else None
         argv = w["argv"]
-        r = cli.sfs(argv, stdin=inp, kind=w.get("binary", "release"), timeout=20)
+        if w.get("stdout_to"):
+            r = cli.sfs_stdout_to(argv, inp, w["stdout_to"], kind=w.get("binary", "release"), timeout=20)
+        else:
+            r = cli.sfs(argv, stdin=inp, kind=w.get("binary", "release"), timeout=20)
         classify(S, r, argv[0], "replay", inp, w.get("binary", "release"), "replay")
         S.case(key="replay", nontrivial=True)
         return
     part_stat_grid(S, p)
     part_options(S, p)
     part_stderr_full(S, p)
+    part_stdout_gone(S, p)
     part_short(S, p)
     part_absurd(S, p)
     part_samples(S, p)
